@@ -831,3 +831,132 @@ func (c *Ctx) newBranchZero(rule string, fi *FuncInfo, clause string) int {
 	})
 	return n
 }
+
+// THRESHOLD-AS-GIVEN: a function that classifies branches against a numeric threshold it receives
+// compares the lengths with the value given, not with an adjusted one: the threshold parameter is
+// never assigned (=, +=, -=, ++, --) in the function. "All thresholds" includes those within any
+// tolerance of a branch length.
+func (c *Ctx) thresholdAsGiven(rule string, funcs []*FuncInfo, clause string) int {
+	n := 0
+	for _, fi := range funcs {
+		if fi == nil || fi.Decl.Body == nil {
+			continue
+		}
+		info := fi.Pkg.TypesInfo
+		for _, f := range fi.Decl.Type.Params.List {
+			for _, nm := range f.Names {
+				o := info.Defs[nm]
+				if o == nil {
+					continue
+				}
+				if b, ok := o.Type().Underlying().(*types.Basic); !ok || b.Info()&types.IsFloat == 0 {
+					continue
+				}
+				n++
+				key := fi.Name() + "/" + o.Name()
+				var at token.Pos
+				ast.Inspect(fi.Decl.Body, func(m ast.Node) bool {
+					switch x := m.(type) {
+					case *ast.AssignStmt:
+						for _, l := range x.Lhs {
+							if identObj(info, l) == o && at == token.NoPos {
+								at = x.Pos()
+							}
+						}
+					case *ast.IncDecStmt:
+						if identObj(info, x.X) == o && at == token.NoPos {
+							at = x.Pos()
+						}
+					}
+					return true
+				})
+				msg := ""
+				if at != token.NoPos {
+					_, ln := c.pos(at)
+					msg = fmt.Sprintf("the threshold `%s` is changed at line %d before the lengths are compared with it: branches whose length lies between the adjusted and the given value fall on the other side of the cut", o.Name(), ln)
+				}
+				c.Check(at == token.NoPos, rule, key, fi.Decl.Pos(), "the threshold is used as given", msg).Clause = clause
+			}
+		}
+	}
+	return n
+}
+
+// PARENT-BY-IDENTITY: a recursive walk over the neighbours of a node that carries the node it came
+// from (`prev`) skips the way back by comparing each neighbour with `prev`. The position of the
+// parent in the neighbour list is not fixed: re-rooting re-orients the branches and leaves the lists
+// as they were, so "the parent is the first neighbour" holds for freshly parsed trees only.
+func (c *Ctx) parentByIdentity(rule string, funcs []*FuncInfo, clause string) int {
+	n := 0
+	for _, fi := range funcs {
+		if fi == nil || fi.Decl.Body == nil {
+			continue
+		}
+		info := fi.Pkg.TypesInfo
+		params := map[types.Object]int{}
+		var plist []types.Object
+		for _, f := range fi.Decl.Type.Params.List {
+			for _, nm := range f.Names {
+				if o := info.Defs[nm]; o != nil {
+					params[o] = len(plist)
+					plist = append(plist, o)
+				}
+			}
+		}
+		walkStack(fi.Decl.Body, func(nd ast.Node, stack []ast.Node) bool {
+			call, ok := nd.(*ast.CallExpr)
+			if !ok || calleeOf(info, call) != fi.Obj || len(call.Args) != len(plist) {
+				return true
+			}
+			// inside a range loop?
+			var rng *ast.RangeStmt
+			for i := len(stack) - 1; i >= 0 && rng == nil; i-- {
+				if r, isR := stack[i].(*ast.RangeStmt); isR {
+					rng = r
+				}
+			}
+			if rng == nil {
+				return true
+			}
+			// prev = the parameter at the position where the call passes another parameter (cur)
+			var prev, elem types.Object
+			for i, a := range call.Args {
+				ao := identObj(info, a)
+				if ao == nil {
+					continue
+				}
+				if _, isParam := params[ao]; isParam && params[ao] != i && isNodePtr(ao.Type()) {
+					prev = plist[i]
+				}
+				if rng.Value != nil && ao == identObj(info, rng.Value) && isNodePtr(ao.Type()) {
+					elem = ao
+				}
+			}
+			if prev == nil {
+				return true
+			}
+			n++
+			key := fmt.Sprintf("%s/recursion#%d", funcName(fi.Obj), n)
+			okCond := false
+			if elem != nil {
+				conds, _ := c.pathConds(info, fi.Decl.Body, call, false)
+				for _, cd := range conds {
+					be, isBe := unparen(cd.Expr).(*ast.BinaryExpr)
+					if cd.Expr == nil || !isBe {
+						continue
+					}
+					x, y := identObj(info, be.X), identObj(info, be.Y)
+					if (x == elem && y == prev) || (x == prev && y == elem) {
+						if (be.Op == token.NEQ && !cd.Neg) || (be.Op == token.EQL && cd.Neg) {
+							okCond = true
+						}
+					}
+				}
+			}
+			c.Check(okCond, rule, key, call.Pos(), "the walk skips the way back by comparing the neighbour with `"+prev.Name()+"`",
+				fmt.Sprintf("this recursive call of %s descends into neighbours without comparing each with `%s`: the way back is skipped by position (or not at all), which is right only while the parent is the first neighbour - after a re-rooting subtrees are lost or written twice", fi.Obj.Name(), prev.Name())).Clause = clause
+			return true
+		})
+	}
+	return n
+}
